@@ -5,6 +5,7 @@ import Goat.Driver.Load
 import Goat.Driver.TreeSort
 import Goat.Driver.Scope
 import Goat.Driver.Opt
+import Goat.Driver.Check
 /-! goatmodel: one operation per input line, one canonical output line per operation. -/
 open Goat.Driver
 
@@ -19,6 +20,8 @@ def step (st : DriverState) (line : String) : DriverState × String :=
   | "load" :: args => (st, loadCmd args)
   | "tsort" :: args => (st, tsortCmd args)
   | "opt" :: args => (st, optCmd args)
+  | "verify" :: args => (st, verifyCmd args)
+  | "effect" :: args => (st, effectCmd args)
   | "scope" :: args => let (s, o) := scopeCmd st.scope args; ({ st with scope := s }, o)
   | "omap" :: args => let (s, o) := omapCmd st.omap args; ({ st with omap := s }, o)
   | _ => (st, "bad-op")
